@@ -220,12 +220,13 @@ def Pc.insideF : Pc → Bool
 
 /-! ### executable helpers for the driver -/
 
-/-- The events task `t` could perform next, ignoring result-carrying arguments the state determines. -/
+/-- The events task `t` could perform next, ignoring result-carrying arguments the state determines
+(`rand` events are only accepted at `.rand`, so they are only listed there). -/
 def candidates (c : Cfg) (s : State) (t : TaskId) : List Event :=
   [.start, .exit, .panic, .lock, .unlock, .wait, .wake, .signal none, .signal s.waiters.head?,
    .broadcast s.waiters.length, .doCall c.n, .doReturn] ++
-  (List.range s.todo.length).map (fun k => Event.rand s.todo.length k) ++
   (match s.pc t with
+   | .rand => (List.range s.todo.length).map (fun k => Event.rand s.todo.length k)
    | .fEnter x => [.fEnter x]
    | .inF x _ => [.fExit x]
    | .spawn i => [.go i]
